@@ -116,19 +116,30 @@ where
             if j < self.k {
                 self.reservoir[j] = obj;
             }
-        } else if self.i >= self.skip_until {
+        } else {
             // fast skipping approximation
-            let j: usize = self.rng.gen_range(0..self.k);
-            self.reservoir[j] = obj;
+            if self.i == t {
+                // entering this phase: the first element is also only taken with probability `k / (i + 1)`
+                self.skip_until = self.i.saturating_add(self.gap(self.i));
+            }
+            if self.i >= self.skip_until {
+                let j: usize = self.rng.gen_range(0..self.k);
+                self.reservoir[j] = obj;
 
-            // calculate next skip
-            let p = (self.k as f64) / ((self.i + 1) as f64);
-            let u = 1f64 - self.rng.gen_range((0.)..1.); // (0.0, 1.0]
-            let g = (u.ln() / (1. - p).ln()).floor() as usize;
-            self.skip_until = self.i + g;
+                // calculate next skip
+                self.skip_until = self.i.saturating_add(self.gap(self.i));
+            }
         }
 
         self.i += 1;
+    }
+
+    /// Number of elements that are skipped before the next one is taken, when every element is taken with the
+    /// probability that applies to the element with (0-based) index `i`.
+    fn gap(&mut self, i: usize) -> usize {
+        let p = (self.k as f64) / ((i + 1) as f64);
+        let u = 1f64 - self.rng.gen_range((0.)..1.); // (0.0, 1.0]
+        (u.ln() / (1. - p).ln()).floor() as usize
     }
 
     /// Checks if reservoir is empty (i.e. no data points where observed)
